@@ -471,7 +471,49 @@ def _syntax_transformers():
                 n.body = n.body[:k] + pre + n.body[k:]
             return n
 
-    return {"attribute prefixes read through a local alias (al_x = self.x)": AliasAttr,
+    class ChainSplit(ast.NodeTransformer):  # a <= x <= b  ->  a <= x and x <= b   (x a plain name / attribute chain / constant)
+        def visit_Compare(self, n):
+            self.generic_visit(n)
+            if len(n.ops) < 2:
+                return n
+            terms = [n.left] + n.comparators
+            if any(not isinstance(t, (ast.Name, ast.Attribute, ast.Constant)) and not (isinstance(t, ast.Call) and isinstance(t.func, ast.Name) and t.func.id in ("min", "max", "len", "abs")) for t in terms[1:-1]):
+                return n
+            import copy
+
+            parts = [ast.Compare(left=copy.deepcopy(terms[i]), ops=[n.ops[i]], comparators=[copy.deepcopy(terms[i + 1])]) for i in range(len(n.ops))]
+            return ast.copy_location(ast.BoolOp(op=ast.And(), values=parts), n)
+
+    class UnpackSplit(ast.NodeTransformer):  # a, b = f(..)  ->  _u = f(..); a = _u[0]; b = _u[1]   at statement level
+        def __init__(self):
+            self.k = 0
+
+        def _blk(self, body):
+            out = []
+            for s_ in body:
+                for fld in ("body", "orelse", "finalbody"):
+                    b = getattr(s_, fld, None)
+                    if isinstance(b, list) and b and isinstance(b[0], ast.stmt):
+                        setattr(s_, fld, self._blk(b))
+                for h in getattr(s_, "handlers", []) or []:
+                    h.body = self._blk(h.body)
+                if isinstance(s_, ast.Assign) and len(s_.targets) == 1 and isinstance(s_.targets[0], ast.Tuple) and isinstance(s_.value, ast.Call) \
+                        and all(isinstance(e, ast.Name) for e in s_.targets[0].elts) and 2 <= len(s_.targets[0].elts) <= 4:
+                    self.k += 1
+                    u = f"_u{self.k}"
+                    out.append(ast.copy_location(ast.Assign(targets=[ast.Name(id=u, ctx=ast.Store())], value=s_.value), s_))
+                    for i, e in enumerate(s_.targets[0].elts):
+                        out.append(ast.copy_location(ast.Assign(targets=[ast.Name(id=e.id, ctx=ast.Store())], value=ast.Subscript(value=ast.Name(id=u, ctx=ast.Load()), slice=ast.Constant(value=i), ctx=ast.Load())), s_))
+                else:
+                    out.append(s_)
+            return out
+
+        def visit_Module(self, n):
+            n.body = self._blk(n.body)
+            return n
+
+    return {"chained comparisons written as conjunctions": ChainSplit, "tuple results unpacked through a temporary (a = _u[0]; b = _u[1])": UnpackSplit,
+            "attribute prefixes read through a local alias (al_x = self.x)": AliasAttr,
             "extract-method: the first run of statements with branches / loops of every function moved into a helper": ExtractCompound,
             "extract-method: the first straight-line run of every function moved into a helper": ExtractBlocks,
             "extract-method, the helper written with its own parameter and local names": ExtractBlocksRenamed,
